@@ -1,424 +1,2 @@
-(* GENERATED by tools/gotrans (gotrans determinism <repo> <out.v>) from the Go sources - DO NOT EDIT.
-   Regenerated by ./check on every run; the committed copy only makes a fresh `make` work. *)
-From Coq Require Import String List Bool.
-From Elys Require Import Models.Restart.
-Import ListNotations.
-Open Scope string_scope.
-
-(* every field of every struct of the keeper packages: package, struct, field, shape of its type, type text, assigned outside New* *)
-Definition fields : list kfield := [
-  mkF "x/accountedpool/keeper" "AmmHooks" "k" KKeeper "Keeper" false;
-  mkF "x/accountedpool/keeper" "Keeper" "bankKeeper" KInterface "types.BankKeeper" false;
-  mkF "x/accountedpool/keeper" "Keeper" "cdc" KInterface "codec.BinaryCodec" false;
-  mkF "x/accountedpool/keeper" "Keeper" "storeService" KInterface "storetypes.KVStoreService" false;
-  mkF "x/accountedpool/keeper" "LeverageLpHooks" "k" KKeeper "Keeper" false;
-  mkF "x/accountedpool/keeper" "PerpetualHooks" "k" KKeeper "Keeper" false;
-  mkF "x/accountedpool/keeper" "msgServer" "Keeper" KKeeper "Keeper" false;
-  mkF "x/amm/keeper" "Keeper" "accountKeeper" KInterface "types.AccountKeeper" false;
-  mkF "x/amm/keeper" "Keeper" "accountedPoolKeeper" KInterface "types.AccountedPoolKeeper" false;
-  mkF "x/amm/keeper" "Keeper" "assetProfileKeeper" KInterface "types.AssetProfileKeeper" false;
-  mkF "x/amm/keeper" "Keeper" "authority" KString "string" false;
-  mkF "x/amm/keeper" "Keeper" "bankKeeper" KInterface "types.BankKeeper" false;
-  mkF "x/amm/keeper" "Keeper" "cdc" KInterface "codec.BinaryCodec" false;
-  mkF "x/amm/keeper" "Keeper" "commitmentKeeper" KKeeper "*commitmentkeeper.Keeper" false;
-  mkF "x/amm/keeper" "Keeper" "hooks" KInterface "types.AmmHooks" true;
-  mkF "x/amm/keeper" "Keeper" "oracleKeeper" KInterface "types.OracleKeeper" false;
-  mkF "x/amm/keeper" "Keeper" "parameterKeeper" KKeeper "*pkeeper.Keeper" false;
-  mkF "x/amm/keeper" "Keeper" "storeService" KInterface "store.KVStoreService" false;
-  mkF "x/amm/keeper" "Keeper" "tierKeeper" KKeeper "*tierkeeper.Keeper" true;
-  mkF "x/amm/keeper" "Keeper" "transientStoreKey" KInterface "storetypes.StoreKey" false;
-  mkF "x/amm/keeper" "msgServer" "Keeper" KKeeper "Keeper" false;
-  mkF "x/assetprofile/keeper" "Keeper" "authority" KString "string" false;
-  mkF "x/assetprofile/keeper" "Keeper" "cdc" KInterface "codec.BinaryCodec" false;
-  mkF "x/assetprofile/keeper" "Keeper" "storeService" KInterface "store.KVStoreService" false;
-  mkF "x/assetprofile/keeper" "Keeper" "transferKeeper" KKeeper "*ibctransferkeeper.Keeper" false;
-  mkF "x/assetprofile/keeper" "msgServer" "Keeper" KKeeper "Keeper" false;
-  mkF "x/burner/keeper" "Hooks" "k" KKeeper "Keeper" false;
-  mkF "x/burner/keeper" "Keeper" "authority" KString "string" false;
-  mkF "x/burner/keeper" "Keeper" "bankKeeper" KInterface "types.BankKeeper" false;
-  mkF "x/burner/keeper" "Keeper" "cdc" KInterface "codec.BinaryCodec" false;
-  mkF "x/burner/keeper" "Keeper" "storeService" KInterface "store.KVStoreService" false;
-  mkF "x/burner/keeper" "msgServer" "Keeper" KKeeper "Keeper" false;
-  mkF "x/commitment/keeper" "Hooks" "k" KKeeper "Keeper" false;
-  mkF "x/commitment/keeper" "Keeper" "accountKeeper" KInterface "types.AccountKeeper" false;
-  mkF "x/commitment/keeper" "Keeper" "assetProfileKeeper" KInterface "types.AssetProfileKeeper" false;
-  mkF "x/commitment/keeper" "Keeper" "authority" KString "string" false;
-  mkF "x/commitment/keeper" "Keeper" "bankKeeper" KInterface "types.BankKeeper" false;
-  mkF "x/commitment/keeper" "Keeper" "cdc" KInterface "codec.BinaryCodec" false;
-  mkF "x/commitment/keeper" "Keeper" "hooks" KInterface "types.CommitmentHooks" true;
-  mkF "x/commitment/keeper" "Keeper" "stakingKeeper" KInterface "types.StakingKeeper" false;
-  mkF "x/commitment/keeper" "Keeper" "storeService" KInterface "store.KVStoreService" false;
-  mkF "x/commitment/keeper" "msgServer" "Keeper" KKeeper "Keeper" false;
-  mkF "x/epochs/keeper" "Keeper" "cdc" KInterface "codec.Codec" false;
-  mkF "x/epochs/keeper" "Keeper" "hooks" KInterface "types.EpochHooks" true;
-  mkF "x/epochs/keeper" "Keeper" "storeService" KInterface "store.KVStoreService" false;
-  mkF "x/estaking/keeper" "CommitmentHooks" "k" KKeeper "Keeper" false;
-  mkF "x/estaking/keeper" "EpochHooks" "k" KKeeper "Keeper" false;
-  mkF "x/estaking/keeper" "Keeper" "Keeper" KKeeper "*stakingkeeper.Keeper" false;
-  mkF "x/estaking/keeper" "Keeper" "assetProfileKeeper" KInterface "types.AssetProfileKeeper" false;
-  mkF "x/estaking/keeper" "Keeper" "authority" KString "string" false;
-  mkF "x/estaking/keeper" "Keeper" "cdc" KInterface "codec.BinaryCodec" false;
-  mkF "x/estaking/keeper" "Keeper" "commKeeper" KInterface "types.CommitmentKeeper" false;
-  mkF "x/estaking/keeper" "Keeper" "distrKeeper" KInterface "types.DistrKeeper" false;
-  mkF "x/estaking/keeper" "Keeper" "parameterKeeper" KInterface "types.ParameterKeeper" false;
-  mkF "x/estaking/keeper" "Keeper" "storeService" KInterface "store.KVStoreService" false;
-  mkF "x/estaking/keeper" "Keeper" "tokenomicsKeeper" KInterface "types.TokenomicsKeeper" false;
-  mkF "x/estaking/keeper" "StakingHooks" "k" KKeeper "Keeper" false;
-  mkF "x/estaking/keeper" "msgServer" "Keeper" KKeeper "Keeper" false;
-  mkF "x/leveragelp/keeper" "AmmHooks" "k" KKeeper "Keeper" false;
-  mkF "x/leveragelp/keeper" "Hooks" "k" KKeeper "Keeper" false;
-  mkF "x/leveragelp/keeper" "Keeper" "accountedPoolKeeper" KInterface "types.AccountedPoolKeeper" false;
-  mkF "x/leveragelp/keeper" "Keeper" "amm" KInterface "types.AmmKeeper" false;
-  mkF "x/leveragelp/keeper" "Keeper" "assetProfileKeeper" KInterface "types.AssetProfileKeeper" false;
-  mkF "x/leveragelp/keeper" "Keeper" "authority" KString "string" false;
-  mkF "x/leveragelp/keeper" "Keeper" "bankKeeper" KInterface "types.BankKeeper" false;
-  mkF "x/leveragelp/keeper" "Keeper" "cdc" KInterface "codec.BinaryCodec" false;
-  mkF "x/leveragelp/keeper" "Keeper" "commKeeper" KInterface "types.CommitmentKeeper" false;
-  mkF "x/leveragelp/keeper" "Keeper" "hooks" KInterface "types.LeverageLpHooks" true;
-  mkF "x/leveragelp/keeper" "Keeper" "masterchefKeeper" KInterface "types.MasterchefKeeper" false;
-  mkF "x/leveragelp/keeper" "Keeper" "oracleKeeper" KInterface "ammtypes.OracleKeeper" false;
-  mkF "x/leveragelp/keeper" "Keeper" "stableKeeper" KInterface "types.StableStakeKeeper" false;
-  mkF "x/leveragelp/keeper" "Keeper" "storeService" KInterface "store.KVStoreService" false;
-  mkF "x/leveragelp/keeper" "msgServer" "Keeper" KKeeper "Keeper" false;
-  mkF "x/masterchef/keeper" "AmmHooks" "k" KKeeper "Keeper" false;
-  mkF "x/masterchef/keeper" "Keeper" "accountedPoolKeeper" KInterface "types.AccountedPoolKeeper" false;
-  mkF "x/masterchef/keeper" "Keeper" "amm" KInterface "types.AmmKeeper" false;
-  mkF "x/masterchef/keeper" "Keeper" "assetProfileKeeper" KInterface "types.AssetProfileKeeper" false;
-  mkF "x/masterchef/keeper" "Keeper" "authKeeper" KInterface "types.AccountKeeper" false;
-  mkF "x/masterchef/keeper" "Keeper" "authority" KString "string" false;
-  mkF "x/masterchef/keeper" "Keeper" "bankKeeper" KInterface "types.BankKeeper" false;
-  mkF "x/masterchef/keeper" "Keeper" "cdc" KInterface "codec.BinaryCodec" false;
-  mkF "x/masterchef/keeper" "Keeper" "commitmentKeeper" KInterface "types.CommitmentKeeper" false;
-  mkF "x/masterchef/keeper" "Keeper" "estakingKeeper" KKeeper "*estakingkeeper.Keeper" false;
-  mkF "x/masterchef/keeper" "Keeper" "oracleKeeper" KInterface "types.OracleKeeper" false;
-  mkF "x/masterchef/keeper" "Keeper" "parameterKeeper" KInterface "types.ParameterKeeper" false;
-  mkF "x/masterchef/keeper" "Keeper" "stableKeeper" KInterface "types.StableStakeKeeper" false;
-  mkF "x/masterchef/keeper" "Keeper" "storeService" KInterface "store.KVStoreService" false;
-  mkF "x/masterchef/keeper" "Keeper" "tokenomicsKeeper" KInterface "types.TokenomicsKeeper" false;
-  mkF "x/masterchef/keeper" "StableStakeHooks" "k" KKeeper "Keeper" false;
-  mkF "x/masterchef/keeper" "msgServer" "Keeper" KKeeper "Keeper" false;
-  mkF "x/oracle/keeper" "Hooks" "k" KKeeper "Keeper" false;
-  mkF "x/oracle/keeper" "Keeper" "authority" KString "string" false;
-  mkF "x/oracle/keeper" "Keeper" "cdc" KInterface "codec.BinaryCodec" false;
-  mkF "x/oracle/keeper" "Keeper" "channelKeeper" KInterface "types.ChannelKeeper" false;
-  mkF "x/oracle/keeper" "Keeper" "portKeeper" KInterface "types.PortKeeper" false;
-  mkF "x/oracle/keeper" "Keeper" "scopedKeeper" KInterface "exported.ScopedKeeper" false;
-  mkF "x/oracle/keeper" "Keeper" "storeService" KInterface "store.KVStoreService" false;
-  mkF "x/oracle/keeper" "msgServer" "Keeper" KKeeper "Keeper" false;
-  mkF "x/parameter/keeper" "Keeper" "authority" KString "string" false;
-  mkF "x/parameter/keeper" "Keeper" "cdc" KInterface "codec.BinaryCodec" false;
-  mkF "x/parameter/keeper" "Keeper" "storeService" KInterface "store.KVStoreService" false;
-  mkF "x/parameter/keeper" "msgServer" "Keeper" KKeeper "Keeper" false;
-  mkF "x/perpetual/keeper" "AmmHooks" "k" KKeeper "Keeper" false;
-  mkF "x/perpetual/keeper" "EpochHooks" "k" KKeeper "Keeper" false;
-  mkF "x/perpetual/keeper" "Keeper" "amm" KInterface "types.AmmKeeper" false;
-  mkF "x/perpetual/keeper" "Keeper" "assetProfileKeeper" KInterface "types.AssetProfileKeeper" false;
-  mkF "x/perpetual/keeper" "Keeper" "authority" KString "string" false;
-  mkF "x/perpetual/keeper" "Keeper" "bankKeeper" KInterface "types.BankKeeper" false;
-  mkF "x/perpetual/keeper" "Keeper" "cdc" KInterface "codec.BinaryCodec" false;
-  mkF "x/perpetual/keeper" "Keeper" "hooks" KInterface "types.PerpetualHooks" true;
-  mkF "x/perpetual/keeper" "Keeper" "oracleKeeper" KInterface "types.OracleKeeper" false;
-  mkF "x/perpetual/keeper" "Keeper" "parameterKeeper" KKeeper "*pkeeper.Keeper" false;
-  mkF "x/perpetual/keeper" "Keeper" "storeService" KInterface "store.KVStoreService" false;
-  mkF "x/perpetual/keeper" "Keeper" "tierKeeper" KKeeper "*tierkeeper.Keeper" true;
-  mkF "x/perpetual/keeper" "LeverageLpHooks" "k" KKeeper "Keeper" false;
-  mkF "x/perpetual/keeper" "msgServer" "Keeper" KKeeper "Keeper" false;
-  mkF "x/stablestake/keeper" "Keeper" "assetProfileKeeper" KInterface "types.AssetProfileKeeper" false;
-  mkF "x/stablestake/keeper" "Keeper" "authority" KString "string" false;
-  mkF "x/stablestake/keeper" "Keeper" "bk" KInterface "types.BankKeeper" false;
-  mkF "x/stablestake/keeper" "Keeper" "cdc" KInterface "codec.BinaryCodec" false;
-  mkF "x/stablestake/keeper" "Keeper" "commitmentKeeper" KKeeper "*commitmentkeeper.Keeper" false;
-  mkF "x/stablestake/keeper" "Keeper" "hooks" KInterface "types.StableStakeHooks" true;
-  mkF "x/stablestake/keeper" "Keeper" "storeService" KInterface "store.KVStoreService" false;
-  mkF "x/stablestake/keeper" "msgServer" "Keeper" KKeeper "Keeper" false;
-  mkF "x/tier/keeper" "AmmHooks" "k" KKeeper "Keeper" false;
-  mkF "x/tier/keeper" "Keeper" "amm" KInterface "types.AmmKeeper" false;
-  mkF "x/tier/keeper" "Keeper" "assetProfileKeeper" KInterface "types.AssetProfileKeeper" false;
-  mkF "x/tier/keeper" "Keeper" "bankKeeper" KInterface "types.BankKeeper" false;
-  mkF "x/tier/keeper" "Keeper" "cdc" KInterface "codec.BinaryCodec" false;
-  mkF "x/tier/keeper" "Keeper" "commitement" KInterface "types.CommitmentKeeper" false;
-  mkF "x/tier/keeper" "Keeper" "estaking" KInterface "types.EstakingKeeper" false;
-  mkF "x/tier/keeper" "Keeper" "leveragelp" KInterface "types.LeverageLpKeeper" false;
-  mkF "x/tier/keeper" "Keeper" "masterchef" KInterface "types.MasterchefKeeper" false;
-  mkF "x/tier/keeper" "Keeper" "oracleKeeper" KInterface "types.OracleKeeper" false;
-  mkF "x/tier/keeper" "Keeper" "perpetual" KInterface "types.PerpetualKeeper" false;
-  mkF "x/tier/keeper" "Keeper" "stablestakeKeeper" KInterface "types.StablestakeKeeper" false;
-  mkF "x/tier/keeper" "Keeper" "stakingKeeper" KInterface "types.StakingKeeper" false;
-  mkF "x/tier/keeper" "Keeper" "storeService" KInterface "store.KVStoreService" false;
-  mkF "x/tier/keeper" "Keeper" "tradeshieldKeeper" KInterface "types.TradeshieldKeeper" true;
-  mkF "x/tier/keeper" "LeverageLpHooks" "k" KKeeper "Keeper" false;
-  mkF "x/tier/keeper" "PerpetualHooks" "k" KKeeper "Keeper" false;
-  mkF "x/tier/keeper" "StableStakeHooks" "k" KKeeper "Keeper" false;
-  mkF "x/tier/keeper" "StakingHooks" "k" KKeeper "Keeper" false;
-  mkF "x/tier/keeper" "msgServer" "Keeper" KKeeper "Keeper" false;
-  mkF "x/tokenomics/keeper" "Keeper" "authority" KString "string" false;
-  mkF "x/tokenomics/keeper" "Keeper" "cdc" KInterface "codec.BinaryCodec" false;
-  mkF "x/tokenomics/keeper" "Keeper" "commitmentKeeper" KKeeper "*commitmentkeeper.Keeper" false;
-  mkF "x/tokenomics/keeper" "Keeper" "storeService" KInterface "store.KVStoreService" false;
-  mkF "x/tokenomics/keeper" "msgServer" "Keeper" KKeeper "Keeper" false;
-  mkF "x/tradeshield/keeper" "Keeper" "amm" KInterface "types.AmmKeeper" false;
-  mkF "x/tradeshield/keeper" "Keeper" "authority" KString "string" false;
-  mkF "x/tradeshield/keeper" "Keeper" "bank" KInterface "types.BankKeeper" false;
-  mkF "x/tradeshield/keeper" "Keeper" "cdc" KInterface "codec.BinaryCodec" false;
-  mkF "x/tradeshield/keeper" "Keeper" "perpetual" KInterface "types.PerpetualKeeper" false;
-  mkF "x/tradeshield/keeper" "Keeper" "storeService" KInterface "store.KVStoreService" false;
-  mkF "x/tradeshield/keeper" "msgServer" "Keeper" KKeeper "Keeper" false;
-  mkF "x/transferhook/keeper" "Keeper" "Cdc" KInterface "codec.BinaryCodec" false;
-  mkF "x/transferhook/keeper" "Keeper" "ammKeeper" KKeeper "*ammkeeper.Keeper" false;
-  mkF "x/transferhook/keeper" "Keeper" "storeService" KInterface "store.KVStoreService" false
-].
-
-(* package-level variables: package, name, shape, type text, written outside init, where *)
-Definition pkgvars : list pvar := [
-  mkV "app" "DefaultNodeHome" KString "string" false "";
-  mkV "app" "NextVersion" KString "string" false "";
-  mkV "app" "maccPerms" KMap "map[string][]string" false "";
-  mkV "app/ante" "expeditedPropDecoratorEnabled" KScalar "bool" true "app/ante:SetExpeditedProposalsEnabled assigns [no caller in the tree]";
-  mkV "app/ante" "expeditedPropsWhitelist" KMap "map[string]struct{}" false "";
-  mkV "app/ante" "maxDelegationsChecked" KScalar "int" false "";
-  mkV "app/ante" "minStakedTokens" KStruct "math.LegacyDec" true "app/ante:SetMinStakedTokens assigns [no caller in the tree]";
-  mkV "github.com/cosmos/cosmos-sdk/version" "Version" KString "string" true "app:NewElysApp assigns";
-  mkV "x/accountedpool/types" "ErrDuplicatedAccountedPoolId" KPointer "*errors.Error" false "";
-  mkV "x/accountedpool/types" "ErrPoolAlreadyExist" KPointer "*errors.Error" false "";
-  mkV "x/accountedpool/types" "ErrPoolDoesNotExist" KPointer "*errors.Error" false "";
-  mkV "x/amm/types" "ErrAmountTooLow" KPointer "*errors.Error" false "";
-  mkV "x/amm/types" "ErrDenomNotFoundInPool" KPointer "*errors.Error" false "";
-  mkV "x/amm/types" "ErrEmptyRoutes" KPointer "*errors.Error" false "";
-  mkV "x/amm/types" "ErrInitialSpotPriceIsZero" KPointer "*errors.Error" false "";
-  mkV "x/amm/types" "ErrInvalidDenom" KPointer "*errors.Error" false "";
-  mkV "x/amm/types" "ErrInvalidDiscount" KPointer "*errors.Error" false "";
-  mkV "x/amm/types" "ErrInvalidMathApprox" KPointer "*errors.Error" false "";
-  mkV "x/amm/types" "ErrInvalidPool" KPointer "*errors.Error" false "";
-  mkV "x/amm/types" "ErrInvalidPoolId" KPointer "*errors.Error" false "";
-  mkV "x/amm/types" "ErrInvalidShareAmountOut" KPointer "*errors.Error" false "";
-  mkV "x/amm/types" "ErrInvalidSwapMsgType" KPointer "*errors.Error" false "";
-  mkV "x/amm/types" "ErrLimitMaxAmount" KPointer "*errors.Error" false "";
-  mkV "x/amm/types" "ErrLimitMinAmount" KPointer "*errors.Error" false "";
-  mkV "x/amm/types" "ErrNegativeExitFee" KPointer "*errors.Error" false "";
-  mkV "x/amm/types" "ErrNegativeSwapFee" KPointer "*errors.Error" false "";
-  mkV "x/amm/types" "ErrOnlyBaseAssetsPoolAllowed" KPointer "*errors.Error" false "";
-  mkV "x/amm/types" "ErrPoolAssetsMustBeTwo" KPointer "*errors.Error" false "";
-  mkV "x/amm/types" "ErrPoolNotFound" KPointer "*errors.Error" false "";
-  mkV "x/amm/types" "ErrSameDenom" KPointer "*errors.Error" false "";
-  mkV "x/amm/types" "ErrSpotPriceIsZero" KPointer "*errors.Error" false "";
-  mkV "x/amm/types" "ErrTokenOutAmountZero" KPointer "*errors.Error" false "";
-  mkV "x/amm/types" "ErrTooManyTokensOut" KPointer "*errors.Error" false "";
-  mkV "x/amm/types" "ErrTooMuchSwapFee" KPointer "*errors.Error" false "";
-  mkV "x/amm/types" "GuaranteedWeightPrecision" KScalar "int64" false "";
-  mkV "x/amm/types" "InitPoolSharesSupply" KStruct "math.Int" false "";
-  mkV "x/amm/types" "MaxSwapFee" KStruct "math.LegacyDec" false "";
-  mkV "x/amm/types" "OneShare" KStruct "math.Int" false "";
-  mkV "x/amm/types" "euler" KStruct "math.LegacyDec" false "";
-  mkV "x/amm/types" "inverseLn2" KStruct "math.LegacyDec" false "";
-  mkV "x/amm/types" "ln2" KStruct "math.LegacyDec" false "";
-  mkV "x/amm/types" "oneHalf" KStruct "math.LegacyDec" false "";
-  mkV "x/amm/types" "powIterationLimit" KScalar "int64" false "";
-  mkV "x/amm/types" "powPrecision" KStruct "math.LegacyDec" false "";
-  mkV "x/amm/types" "twoDec" KStruct "math.LegacyDec" false "";
-  mkV "x/amm/utils" "ExtraAccountTypes" KMap "map[reflect.Type]struct{}" false "";
-  mkV "x/assetprofile/types" "ErrAssetProfileNotFound" KPointer "*errors.Error" false "";
-  mkV "x/assetprofile/types" "ErrChannelIdAndDenomHashMismatch" KPointer "*errors.Error" false "";
-  mkV "x/assetprofile/types" "ErrDecimalsInvalid" KPointer "*errors.Error" false "";
-  mkV "x/assetprofile/types" "ErrInvalidBaseDenom" KPointer "*errors.Error" false "";
-  mkV "x/assetprofile/types" "ErrNotValidIbcDenom" KPointer "*errors.Error" false "";
-  mkV "x/assetprofile/types" "ParamKeyPrefix" KSlice "[]byte" false "";
-  mkV "x/burner/types" "ErrInvalidEpochIdentifier" KPointer "*errors.Error" false "";
-  mkV "x/burner/types" "ErrInvalidParams" KPointer "*errors.Error" false "";
-  mkV "x/burner/types" "ParamsKeyPrefix" KSlice "[]byte" false "";
-  mkV "x/commitment/types" "CommitmentsKeyPrefix" KSlice "[]byte" false "";
-  mkV "x/commitment/types" "ErrCommitDisabled" KPointer "*errors.Error" false "";
-  mkV "x/commitment/types" "ErrCommitmentsNotFound" KPointer "*errors.Error" false "";
-  mkV "x/commitment/types" "ErrExceedMaxVestings" KPointer "*errors.Error" false "";
-  mkV "x/commitment/types" "ErrInsufficientClaimed" KPointer "*errors.Error" false "";
-  mkV "x/commitment/types" "ErrInsufficientCommittedTokens" KPointer "*errors.Error" false "";
-  mkV "x/commitment/types" "ErrInsufficientRewardsUnclaimed" KPointer "*errors.Error" false "";
-  mkV "x/commitment/types" "ErrInsufficientVestingTokens" KPointer "*errors.Error" false "";
-  mkV "x/commitment/types" "ErrInsufficientWithdrawableTokens" KPointer "*errors.Error" false "";
-  mkV "x/commitment/types" "ErrInvalidAmount" KPointer "*errors.Error" false "";
-  mkV "x/commitment/types" "ErrInvalidDenom" KPointer "*errors.Error" false "";
-  mkV "x/commitment/types" "ErrUnsupportedUncommitToken" KPointer "*errors.Error" false "";
-  mkV "x/commitment/types" "ErrUnsupportedWithdrawMode" KPointer "*errors.Error" false "";
-  mkV "x/commitment/types" "ErrVestNowIsNotEnabled" KPointer "*errors.Error" false "";
-  mkV "x/commitment/types" "ErrWithdrawDisabled" KPointer "*errors.Error" false "";
-  mkV "x/commitment/types" "ParamsKey" KSlice "[]byte" false "";
-  mkV "x/epochs/types" "KeyPrefixEpoch" KSlice "[]byte" false "";
-  mkV "x/estaking/keeper" "EdenBValPubKey" KInterface "cryptotypes.PubKey" false "";
-  mkV "x/estaking/keeper" "EdenBValPubKeyAny" KPointer "*codectypes.Any" false "";
-  mkV "x/estaking/keeper" "EdenValPubKey" KInterface "cryptotypes.PubKey" false "";
-  mkV "x/estaking/keeper" "EdenValPubKeyAny" KPointer "*codectypes.Any" false "";
-  mkV "x/estaking/types" "ElysStakeChangeKeyPrefix" KSlice "[]byte" false "";
-  mkV "x/estaking/types" "ElysStakedKeyPrefix" KSlice "[]byte" false "";
-  mkV "x/estaking/types" "ErrNoInflationaryParams" KPointer "*errors.Error" false "";
-  mkV "x/estaking/types" "ParamsKeyPrefix" KSlice "[]byte" false "";
-  mkV "x/leveragelp/types" "ErrAmmPoolNotFound" KPointer "*errors.Error" false "";
-  mkV "x/leveragelp/types" "ErrAmountTooLow" KPointer "*errors.Error" false "";
-  mkV "x/leveragelp/types" "ErrBalanceNotAvailable" KPointer "*errors.Error" false "";
-  mkV "x/leveragelp/types" "ErrBorrowTooHigh" KPointer "*errors.Error" false "";
-  mkV "x/leveragelp/types" "ErrBorrowTooLow" KPointer "*errors.Error" false "";
-  mkV "x/leveragelp/types" "ErrCustodyTooHigh" KPointer "*errors.Error" false "";
-  mkV "x/leveragelp/types" "ErrInsufficientUsdcAfterOp" KPointer "*errors.Error" false "";
-  mkV "x/leveragelp/types" "ErrInvalidBorrowingAsset" KPointer "*errors.Error" false "";
-  mkV "x/leveragelp/types" "ErrInvalidCloseSize" KPointer "*errors.Error" false "";
-  mkV "x/leveragelp/types" "ErrInvalidCollateral" KPointer "*errors.Error" false "";
-  mkV "x/leveragelp/types" "ErrInvalidCollateralAsset" KPointer "*errors.Error" false "";
-  mkV "x/leveragelp/types" "ErrInvalidLeverage" KPointer "*errors.Error" false "";
-  mkV "x/leveragelp/types" "ErrInvalidPosition" KPointer "*errors.Error" false "";
-  mkV "x/leveragelp/types" "ErrLeverageTooSmall" KPointer "*errors.Error" false "";
-  mkV "x/leveragelp/types" "ErrLeveragelpDisabled" KPointer "*errors.Error" false "";
-  mkV "x/leveragelp/types" "ErrMaxLeverageLpExists" KPointer "*errors.Error" false "";
-  mkV "x/leveragelp/types" "ErrMaxOpenPositions" KPointer "*errors.Error" false "";
-  mkV "x/leveragelp/types" "ErrNegUserAmountAfterRepay" KPointer "*errors.Error" false "";
-  mkV "x/leveragelp/types" "ErrOnlyBaseCurrencyAllowed" KPointer "*errors.Error" false "";
-  mkV "x/leveragelp/types" "ErrPoolDoesNotExist" KPointer "*errors.Error" false "";
-  mkV "x/leveragelp/types" "ErrPoolLeverageAmountNotZero" KPointer "*errors.Error" false "";
-  mkV "x/leveragelp/types" "ErrPositionDisabled" KPointer "*errors.Error" false "";
-  mkV "x/leveragelp/types" "ErrPositionDoesNotExist" KPointer "*errors.Error" false "";
-  mkV "x/leveragelp/types" "ErrPositionInvalid" KPointer "*errors.Error" false "";
-  mkV "x/leveragelp/types" "ErrPositionUnhealthy" KPointer "*errors.Error" false "";
-  mkV "x/leveragelp/types" "ErrUnauthorised" KPointer "*errors.Error" false "";
-  mkV "x/leveragelp/types" "LiquidationSortPrefix" KSlice "[]byte" false "";
-  mkV "x/leveragelp/types" "OffsetKeyPrefix" KSlice "[]byte" false "";
-  mkV "x/leveragelp/types" "OpenPositionCountPrefix" KSlice "[]byte" false "";
-  mkV "x/leveragelp/types" "PositionCountPrefix" KSlice "[]byte" false "";
-  mkV "x/leveragelp/types" "PositionPrefix" KSlice "[]byte" false "";
-  mkV "x/leveragelp/types" "SQBeginBlockPrefix" KSlice "[]byte" false "";
-  mkV "x/leveragelp/types" "StopLossSortPrefix" KSlice "[]byte" false "";
-  mkV "x/leveragelp/types" "WhitelistPrefix" KSlice "[]byte" false "";
-  mkV "x/masterchef/types" "ErrInvalidAmountPerBlock" KPointer "*errors.Error" false "";
-  mkV "x/masterchef/types" "ErrInvalidBlockRange" KPointer "*errors.Error" false "";
-  mkV "x/masterchef/types" "ErrInvalidMinAmount" KPointer "*errors.Error" false "";
-  mkV "x/masterchef/types" "ErrInvalidPoolMultiplier" KPointer "*errors.Error" false "";
-  mkV "x/masterchef/types" "ErrNoInflationaryParams" KPointer "*errors.Error" false "";
-  mkV "x/masterchef/types" "ErrPoolNotFound" KPointer "*errors.Error" false "";
-  mkV "x/masterchef/types" "ErrPoolRewardsAccumNotFound" KPointer "*errors.Error" false "";
-  mkV "x/masterchef/types" "ExternalIncentiveIndexKeyPrefix" KSlice "[]byte" false "";
-  mkV "x/masterchef/types" "ExternalIncentiveKeyPrefix" KSlice "[]byte" false "";
-  mkV "x/masterchef/types" "FeeInfoKeyPrefix" KSlice "[]byte" false "";
-  mkV "x/masterchef/types" "ParamsKey" KSlice "[]byte" false "";
-  mkV "x/masterchef/types" "PoolInfoKeyPrefix" KSlice "[]byte" false "";
-  mkV "x/masterchef/types" "PoolRewardInfoKeyPrefix" KSlice "[]byte" false "";
-  mkV "x/masterchef/types" "PoolRewardsAccumKeyPrefix" KSlice "[]byte" false "";
-  mkV "x/masterchef/types" "UserRewardInfoKeyPrefix" KSlice "[]byte" false "";
-  mkV "x/oracle/types" "AssetInfoKeyPrefix" KString "string" false "";
-  mkV "x/oracle/types" "BAND" KString "string" false "";
-  mkV "x/oracle/types" "BandPriceClientIDKey" KString "string" false "";
-  mkV "x/oracle/types" "BandPriceResultStoreKeyPrefix" KString "string" false "";
-  mkV "x/oracle/types" "ELYS" KString "string" false "";
-  mkV "x/oracle/types" "ErrAssetWasCreated" KPointer "*errors.Error" false "";
-  mkV "x/oracle/types" "ErrInvalidPacketTimeout" KPointer "*errors.Error" false "";
-  mkV "x/oracle/types" "ErrInvalidPrice" KPointer "*errors.Error" false "";
-  mkV "x/oracle/types" "ErrInvalidVersion" KPointer "*errors.Error" false "";
-  mkV "x/oracle/types" "ErrNotAPriceFeeder" KPointer "*errors.Error" false "";
-  mkV "x/oracle/types" "ErrNotAvailable" KPointer "*errors.Error" false "";
-  mkV "x/oracle/types" "ErrNotModuleAdmin" KPointer "*errors.Error" false "";
-  mkV "x/oracle/types" "ErrPriceFeederNotActive" KPointer "*errors.Error" false "";
-  mkV "x/oracle/types" "LastBandRequestIdKey" KString "string" false "";
-  mkV "x/oracle/types" "LegacyPriceFeederKeyPrefix" KString "string" false "";
-  mkV "x/oracle/types" "ModuleCdc" KPointer "*codec.ProtoCodec" false "";
-  mkV "x/oracle/types" "ParamKeyPrefix" KSlice "[]byte" false "";
-  mkV "x/oracle/types" "PortKey" KSlice "[]byte" false "";
-  mkV "x/oracle/types" "PrefixKeyBandRequest" KString "string" false "";
-  mkV "x/oracle/types" "PriceFeederPrefixKey" KSlice "[]byte" false "";
-  mkV "x/oracle/types" "PriceKeyPrefix" KString "string" false "";
-  mkV "x/parameter/types" "ErrInvalidMaxVotingPower" KPointer "*errors.Error" false "";
-  mkV "x/parameter/types" "ErrInvalidMinCommissionRate" KPointer "*errors.Error" false "";
-  mkV "x/parameter/types" "ErrInvalidMinSelfDelegation" KPointer "*errors.Error" false "";
-  mkV "x/parameter/types" "ErrInvalidRewardsDataLifecycle" KPointer "*errors.Error" false "";
-  mkV "x/perpetual/types" "ErrAmountTooLow" KPointer "*errors.Error" false "";
-  mkV "x/perpetual/types" "ErrBalanceNotAvailable" KPointer "*errors.Error" false "";
-  mkV "x/perpetual/types" "ErrBorrowTooHigh" KPointer "*errors.Error" false "";
-  mkV "x/perpetual/types" "ErrBorrowTooLow" KPointer "*errors.Error" false "";
-  mkV "x/perpetual/types" "ErrCalcMinCollateral" KPointer "*errors.Error" false "";
-  mkV "x/perpetual/types" "ErrCustodyTooHigh" KPointer "*errors.Error" false "";
-  mkV "x/perpetual/types" "ErrDenomNotFound" KPointer "*errors.Error" false "";
-  mkV "x/perpetual/types" "ErrInvalidAmount" KPointer "*errors.Error" false "";
-  mkV "x/perpetual/types" "ErrInvalidBorrowingAsset" KPointer "*errors.Error" false "";
-  mkV "x/perpetual/types" "ErrInvalidCloseSize" KPointer "*errors.Error" false "";
-  mkV "x/perpetual/types" "ErrInvalidCollateralAsset" KPointer "*errors.Error" false "";
-  mkV "x/perpetual/types" "ErrInvalidLeverage" KPointer "*errors.Error" false "";
-  mkV "x/perpetual/types" "ErrInvalidPosition" KPointer "*errors.Error" false "";
-  mkV "x/perpetual/types" "ErrInvalidPrice" KPointer "*errors.Error" false "";
-  mkV "x/perpetual/types" "ErrInvalidTakeProfitPrice" KPointer "*errors.Error" false "";
-  mkV "x/perpetual/types" "ErrInvalidTradingAsset" KPointer "*errors.Error" false "";
-  mkV "x/perpetual/types" "ErrMTPDisabled" KPointer "*errors.Error" false "";
-  mkV "x/perpetual/types" "ErrMTPDoesNotExist" KPointer "*errors.Error" false "";
-  mkV "x/perpetual/types" "ErrMTPHealthy" KPointer "*errors.Error" false "";
-  mkV "x/perpetual/types" "ErrMTPInvalid" KPointer "*errors.Error" false "";
-  mkV "x/perpetual/types" "ErrMTPUnhealthy" KPointer "*errors.Error" false "";
-  mkV "x/perpetual/types" "ErrMaxOpenPositions" KPointer "*errors.Error" false "";
-  mkV "x/perpetual/types" "ErrPerpetualDisabled" KPointer "*errors.Error" false "";
-  mkV "x/perpetual/types" "ErrPoolDoesNotExist" KPointer "*errors.Error" false "";
-  mkV "x/perpetual/types" "ErrPoolHasToBeOracle" KPointer "*errors.Error" false "";
-  mkV "x/perpetual/types" "ErrUnauthorised" KPointer "*errors.Error" false "";
-  mkV "x/perpetual/types" "ErrUnknownRequest" KPointer "*errors.Error" false "";
-  mkV "x/perpetual/types" "ErrZeroCustodyAmount" KPointer "*errors.Error" false "";
-  mkV "x/perpetual/types" "FundingRatePrefix" KSlice "[]byte" false "";
-  mkV "x/perpetual/types" "InterestRatePrefix" KSlice "[]byte" false "";
-  mkV "x/perpetual/types" "MTPCountPrefix" KSlice "[]byte" false "";
-  mkV "x/perpetual/types" "MTPPrefix" KSlice "[]byte" false "";
-  mkV "x/perpetual/types" "OpenMTPCountPrefix" KSlice "[]byte" false "";
-  mkV "x/perpetual/types" "PoolKeyPrefix" KSlice "[]byte" false "";
-  mkV "x/perpetual/types" "StopLossPriceDefault" KStruct "math.LegacyDec" false "";
-  mkV "x/perpetual/types" "TakeProfitPriceDefault" KStruct "math.LegacyDec" false "";
-  mkV "x/perpetual/types" "WhitelistPrefix" KSlice "[]byte" false "";
-  mkV "x/stablestake/keeper" "numBlocks" KScalar "int" false "";
-  mkV "x/stablestake/types" "DebtPrefixKey" KSlice "[]byte" false "";
-  mkV "x/stablestake/types" "ErrInvalidBorrowDenom" KPointer "*errors.Error" false "";
-  mkV "x/stablestake/types" "ErrInvalidDepositDenom" KPointer "*errors.Error" false "";
-  mkV "x/stablestake/types" "ErrInvalidParams" KPointer "*errors.Error" false "";
-  mkV "x/stablestake/types" "ErrMaxBorrowAmount" KPointer "*errors.Error" false "";
-  mkV "x/stablestake/types" "ErrNegativeBorrowed" KPointer "*errors.Error" false "";
-  mkV "x/stablestake/types" "ErrRedemptionRateIsZero" KPointer "*errors.Error" false "";
-  mkV "x/stablestake/types" "InterestPrefixKey" KSlice "[]byte" false "";
-  mkV "x/stablestake/types" "ParamKeyPrefix" KSlice "[]byte" false "";
-  mkV "x/tier/types" "Basic" KStruct "MembershipTier" false "";
-  mkV "x/tier/types" "Bronze" KStruct "MembershipTier" false "";
-  mkV "x/tier/types" "ErrNotFound" KPointer "*errors.Error" false "";
-  mkV "x/tier/types" "ErrSample" KPointer "*errors.Error" false "";
-  mkV "x/tier/types" "Gold" KStruct "MembershipTier" false "";
-  mkV "x/tier/types" "ParamKeyPrefix" KSlice "[]byte" false "";
-  mkV "x/tier/types" "Platinum" KStruct "MembershipTier" false "";
-  mkV "x/tier/types" "PortfolioKeyPrefix" KSlice "[]byte" false "";
-  mkV "x/tier/types" "Silver" KStruct "MembershipTier" false "";
-  mkV "x/tokenomics/types" "ErrAirdropExpired" KPointer "*errors.Error" false "";
-  mkV "x/tokenomics/types" "ParamKeyPrefix" KSlice "[]byte" false "";
-  mkV "x/tradeshield/types" "ErrInvalidStatus" KPointer "*errors.Error" false "";
-  mkV "x/tradeshield/types" "ErrPerpetualOrderNotFound" KPointer "*errors.Error" false "";
-  mkV "x/tradeshield/types" "ErrPriceNotFound" KPointer "*errors.Error" false "";
-  mkV "x/tradeshield/types" "ErrSample" KPointer "*errors.Error" false "";
-  mkV "x/tradeshield/types" "ErrSizeZero" KPointer "*errors.Error" false "";
-  mkV "x/tradeshield/types" "ErrSpotOrderNotFound" KPointer "*errors.Error" false "";
-  mkV "x/tradeshield/types" "ErrZeroMarketPrice" KPointer "*errors.Error" false "";
-  mkV "x/tradeshield/types" "ParamsKey" KSlice "[]byte" false "";
-  mkV "x/tradeshield/types" "PendingPerpetualOrderCountKey" KSlice "[]byte" false "";
-  mkV "x/tradeshield/types" "PendingPerpetualOrderKey" KSlice "[]byte" false "";
-  mkV "x/tradeshield/types" "PendingSpotOrderCountKey" KSlice "[]byte" false "";
-  mkV "x/tradeshield/types" "PendingSpotOrderKey" KSlice "[]byte" false "";
-  mkV "x/tradeshield/types" "SortedPerpetualOrderKey" KSlice "[]byte" false "";
-  mkV "x/tradeshield/types" "SortedSpotOrderKey" KSlice "[]byte" false "";
-  mkV "x/transferhook/types" "ErrInvalidModuleRoutes" KPointer "*errors.Error" false "";
-  mkV "x/transferhook/types" "ErrInvalidPacketMetadata" KPointer "*errors.Error" false "";
-  mkV "x/transferhook/types" "ErrInvalidReceiverAddress" KPointer "*errors.Error" false "";
-  mkV "x/transferhook/types" "ErrPacketForwardingInactive" KPointer "*errors.Error" false "";
-  mkV "x/transferhook/types" "ErrUnsupportedAmmAction" KPointer "*errors.Error" false "";
-  mkV "x/transferhook/types" "ErrUnsupportedTransferhookRoute" KPointer "*errors.Error" false "";
-  mkV "x/transferhook/types" "ParamKeyPrefix" KSlice "[]byte" false ""
-].
-
-(* every range over a map: package, function, ranged expression, classification of the loop body,
-   whether the enclosing function can reach a store write / bank call / event, whether go/types determined the type *)
-Definition map_ranges : list mrange := [
-  mkR "app" "ElysApp.AutoCliOpts" "app.mm.Modules" ROrderFree false true;
-  mkR "app" "ElysApp.ModuleAccountAddrs" "maccPerms" ROrderFree false true;
-  mkR "app" "GetMaccPerms" "maccPerms" ROrderFree false true;
-  mkR "x/amm/utils" "CanCreateModuleAccountAtAddr" "ExtraAccountTypes" ROrderFree false true;
-  mkR "x/burner/keeper" "Keeper.BurnTokensForAllDenoms" "balances" (RWrites "call:Keeper.burnTokensForDenom | body: if assign:= burnTokensForDenom/3 return/1") true true;
-  mkR "x/masterchef/keeper" "Keeper.generateExternalRewardsApr" "rewardsPerPool" ROrderFree false true
-].
-
-(* wall clock, randomness, goroutines, select, environment, unsafe, pointer printing *)
-Definition nd_sites : list ndsite := [
-  mkN "x/amm/keeper" "Keeper.EndBlocker" NTimeNow "telemetry";
-  mkN "x/epochs/keeper" "Keeper.BeginBlocker" NTimeNow "telemetry";
-  mkN "x/estaking/modules/distribution" "AppModule.BeginBlock" NTimeNow "telemetry"
-].
+(* gotrans failed on the current tree *)
+Definition handlers := gotrans_failed_on_the_current_tree_see_log.
